@@ -8,7 +8,7 @@ from .simsched import Scheduler, SimQueue
 
 
 class FCfg:
-    def __init__(self, n_workers=2, mulp=False, calls=((3, 1),), exact=False):
+    def __init__(self, n_workers=2, mulp=False, calls=((3, 1),), exact=False, none_inputs=False):
         """calls: (items, chunk_size) — chunk size is 1 for mul_p_map;
         exact: the caller takes exactly as many results as there are items (zip / islice style) and drops the generator
         instead of running it into StopIteration (`Cfg.exact` in the model: no further poll of the result queue after the
@@ -17,7 +17,7 @@ class FCfg:
         self.mulp = mulp
         self.calls = [tuple(c) for c in calls]
         self.exact = exact
-
+        self.none_inputs = none_inputs  # see poolsim.Cfg
 
     def cap(self):
         return multiprocessing.cpu_count() if self.mulp else self.n_workers
@@ -27,7 +27,7 @@ class FCfg:
         return f"{'cfgx' if self.exact else 'cfg'} {self.n_workers} {self.cap()} {1 if self.mulp else 0} {chunks}".rstrip()
 
     def to_json(self):
-        return dict(n_workers=self.n_workers, mulp=self.mulp, calls=self.calls, exact=self.exact)
+        return dict(n_workers=self.n_workers, mulp=self.mulp, calls=self.calls, exact=self.exact, none_inputs=self.none_inputs)
 
 
 def f(x):
@@ -94,14 +94,14 @@ class FSimEnv:
         from windpyutils.parallel import pools, maps
         if self.cfg.mulp:
             for k, (n, cs) in enumerate(self.cfg.calls):
-                data = (k * 1000 + i for i in range(n))
+                data = (core.pool_input(k, i, self.cfg.none_inputs) for i in range(n))
                 self.results.append(list(maps.mul_p_map(f, data, self.cfg.n_workers)))
         else:
             with pools.FunctorMap(f, self.cfg.n_workers) as m:
                 for k, (n, cs) in enumerate(self.cfg.calls):
                     res = []
                     self.results.append(res)
-                    it = m((k * 1000 + i for i in range(n)), cs)
+                    it = m((core.pool_input(k, i, self.cfg.none_inputs) for i in range(n)), cs)
                     if self.cfg.exact and n > 0:
                         for _ in range(n):
                             res.append(next(it))
@@ -111,7 +111,7 @@ class FSimEnv:
                             res.append(x)
 
     def expected(self):
-        return [[f(k * 1000 + i) for i in range(n)] for k, (n, cs) in enumerate(self.cfg.calls)]
+        return [[f(core.pool_input(k, i, self.cfg.none_inputs)) for i in range(n)] for k, (n, cs) in enumerate(self.cfg.calls)]
 
     def digest(self):
         def show(q):
@@ -122,7 +122,11 @@ class FSimEnv:
         schedule = []
         try:
             self.install()
-            self.sched.spawn("P", self.caller)
+            try:
+                self.sched.spawn("P", self.caller)
+            except simsched.SchedulerError as e:
+                self.final_finished = {}
+                return ("stuck:" if isinstance(e, simsched.Stuck) else "scheduler:") + str(e), schedule, list(self.sched.log)
 
             def wrapped(en, sched):
                 name = chooser(en, sched)
@@ -134,6 +138,9 @@ class FSimEnv:
                 status = "done"
             except simsched.Deadlock as d:
                 status = "deadlock:" + ",".join(f"{t}@{op}" for t, op in d.blocked)
+            except simsched.SchedulerError as e:
+                # not an observation about the code's behaviour: the run cannot be controlled (see simsched.Stuck)
+                status = ("stuck:" if isinstance(e, simsched.Stuck) else "scheduler:") + str(e)
             self.final_finished = {n: t.finished for n, t in self.sched.threads.items()}
             err = self.sched.threads["P"].error
             if err is not None:
